@@ -616,6 +616,35 @@ class Verifier:
                 o.model = {'_error': str(e)}
             o.model['_case'] = {k: v for k, v in case.items()}
             if c.replay:
+                # a few more counter-models (different scalar inputs): uninterpreted functions
+                # (sin, asin, exp ...) may make the first one an artefact that does not replay
+                alts = []
+                scal = [t for path, t in inputs if is_z3(t) and (z3.is_int(t) or z3.is_real(t))]
+                blocks = []
+                cur = model
+                for _ in range(4):
+                    if cur is None or not scal:
+                        break
+                    blocks.append(z3.Or(*[t != cur.eval(t, model_completion=True)
+                                          for t in scal]))
+                    # push the next model away from degenerate values
+                    spread = [z3.Or(t >= 1, t <= -1) for t in scal if z3.is_real(t)][:6]
+                    r3, m3, _ = solve.check(list(hyps) + [z3.Not(goal)] + blocks + spread,
+                                            timeout_s=5, want_model=True, tag=o.oid + '_alt')
+                    if r3 != 'sat' or m3 is None:
+                        r3, m3, _ = solve.check(list(hyps) + [z3.Not(goal)] + blocks,
+                                                timeout_s=5, want_model=True,
+                                                tag=o.oid + '_alt')
+                    if r3 != 'sat' or m3 is None:
+                        break
+                    try:
+                        mj = model_to_json(m3, inputs)
+                        mj['_case'] = {k: v for k, v in case.items()}
+                        alts.append(mj)
+                    except Exception:  # noqa: BLE001
+                        break
+                    cur = m3
+                o.model['_alternatives'] = alts
                 o.replay = dict(c.replay)
                 o.replay['ensures'] = [list(x) for x in c.ensures]
                 o.replay['raises'] = [list(x) for x in c.raises]
